@@ -145,11 +145,54 @@ func resolveF(info *types.Info, fr *frame, e ast.Expr, depth int) (ast.Expr, *fr
 			}
 			e, fr = val, bfr
 			continue
+		case *ast.CallExpr:
+			// a constructor of the same package: `func newFields(src string) T { return T{..} }`
+			if calleeBody == nil {
+				return e, fr
+			}
+			params, body := calleeBody(v)
+			closure := false
+			if id, isId := ast.Unparen(v.Fun).(*ast.Ident); isId && body == nil {
+				// a closure bound once to a local: fieldOf := func(suffix string) string { return source + "-" + suffix }
+				if r, _ := resolveF(info, fr, id, 3); r != ast.Expr(id) {
+					if lit, isLit := ast.Unparen(r).(*ast.FuncLit); isLit {
+						body, closure = lit.Body, true
+						params = nil
+						for _, fl := range lit.Type.Params.List {
+							for _, n := range fl.Names {
+								params = append(params, info.Defs[n])
+							}
+						}
+					}
+				}
+			}
+			if body == nil || len(body.List) != 1 || len(params) != len(v.Args) || v.Ellipsis.IsValid() {
+				return e, fr
+			}
+			ret, ok := body.List[0].(*ast.ReturnStmt)
+			if !ok || len(ret.Results) != 1 {
+				return e, fr
+			}
+			bind := map[types.Object]ast.Expr{}
+			for i, p := range params {
+				if p != nil {
+					bind[p] = v.Args[i]
+				}
+			}
+			nf := &frame{root: body, bind: bind, up: fr, closure: closure}
+			if closure {
+				nf.root = fr.root
+			}
+			e, fr = ret.Results[0], nf
+			continue
 		}
 		return e, fr
 	}
 	return e, fr
 }
+
+// calleeBody (set by Run) returns the parameters and the body of a same-package function.
+var calleeBody func(call *ast.CallExpr) ([]types.Object, *ast.BlockStmt)
 
 // evalName evaluates a string expression to literal text with holes.
 func evalName(info *types.Info, root ast.Node, e ast.Expr, depth int) form {
@@ -243,6 +286,32 @@ type state struct {
 
 func Run(c *core.Ctx) {
 	st := &state{c: c, writer: map[string]form{}}
+	calleeBody = func(call *ast.CallExpr) ([]types.Object, *ast.BlockStmt) {
+		for _, pk := range c.Pkgs {
+			if pk.TypesInfo == nil {
+				continue
+			}
+			f := core.CalleeFunc(pk.TypesInfo, call)
+			if f == nil {
+				continue
+			}
+			h := c.FnOf(f)
+			if h == nil || h.Decl.Body == nil || h.Pkg.TypesInfo != pk.TypesInfo || h.Obj.Type().(*types.Signature).Variadic() {
+				return nil, nil
+			}
+			var params []types.Object
+			for _, fl := range h.Decl.Type.Params.List {
+				for _, n := range fl.Names {
+					params = append(params, pk.TypesInfo.Defs[n])
+				}
+				if len(fl.Names) == 0 {
+					params = append(params, nil)
+				}
+			}
+			return params, h.Decl.Body
+		}
+		return nil, nil
+	}
 	st.fcv()
 	st.sender()
 	fetch := c.Func(pkgCk, "", "fetchCheckpoint")
@@ -451,6 +520,14 @@ func (st *state) reader(fn *core.Fn, depth int) {
 		}
 	}
 	// defaults
+	zeroDecl := func(o types.Object) bool { // `var version int64`: the zero value
+		for _, d := range tt.DefsOf(info, body, o) {
+			if _, isDecl := d.Stmt.(*ast.ValueSpec); isDecl && d.Rhs == nil && d.Index == -1 {
+				return true
+			}
+		}
+		return false
+	}
 	initOf := func(o types.Object) ast.Expr {
 		var e ast.Expr
 		for _, d := range tt.DefsOf(info, body, o) {
@@ -474,7 +551,9 @@ func (st *state) reader(fn *core.Fn, depth int) {
 	} else {
 		c.Undecidedf("R4.defaults", "fetchCheckpoint/default-offset", scan.Pos(), "no constant initial value of the offset")
 	}
-	if e := initOf(vars[2]); e != nil && st.okFcv {
+	if e := initOf(vars[2]); e == nil && zeroDecl(vars[2]) && st.okFcv {
+		c.Check("R4.defaults", "fetchCheckpoint/default-version", scan.Pos(), 0 < st.fc, fmt.Sprintf("a checkpoint without a version field was written by an older release: its version must default to a value in [0, FeatureCompatibleVersion=%d) so that it is refused; found the zero value", st.fc))
+	} else if e != nil && st.okFcv {
 		v, _ := core.IntConst(info, e)
 		c.Check("R4.defaults", "fetchCheckpoint/default-version", e.Pos(), v >= 0 && v < st.fc, fmt.Sprintf("a checkpoint without a version field was written by an older release: its version must default to a value in [0, FeatureCompatibleVersion=%d) so that it is refused; found %d", st.fc, v))
 	} else {
